@@ -16,7 +16,7 @@ Definition b64_val (c : N) : option N :=
 
 Definition pad_char : N := 61.
 
-(** base64.StdEncoding.DecodeString on input without CR/LF (header values cannot contain them):
+(** base64.StdEncoding.DecodeString on input from which CR/LF have been removed (the decoder skips them):
     quanta of four characters; padding only in the last quantum ("xx==" or "xxx="); anything after
     the padding, a short last quantum, or a character outside the alphabet is an error; non-zero
     trailing bits are accepted (the encoding is not Strict). *)
@@ -76,7 +76,8 @@ Definition parse_basic (auth : bytes) : option (bytes * bytes) :=
   | [] => None
   | _ =>
     if beqb (map lower_ascii (firstn 6 auth)) basic_prefix_lower then
-      match b64_decode (length auth) (skipn 6 auth) with
+      (* the decoder ignores CR and LF wherever they occur *)
+      match b64_decode (length auth) (filter (fun c => negb (N.eqb c 10 || N.eqb c 13)) (skipn 6 auth)) with
       | Some cs => cut_colon cs
       | None => None
       end
